@@ -7,7 +7,8 @@ from pyvc.extract import Module
 
 F_CP = 'atsim/potentials/config/_config_parser.py'
 F_Q = 'atsim/potentials/tools/potable/_query_actions.py'
-FUNCTIONS = []
+import contracts.rawparser as RPc
+FUNCTIONS = [(F_CP, '_RawConfigParser.has_option'), (F_CP, '_RawConfigParser.options')]
 
 def proxy_sites():
     """every place where code iterates over / tests membership in / takes the length of a section proxy of the raw parser"""
@@ -31,9 +32,7 @@ def lemmas():
     S = B.source_shape
     # (1) every section other than [Variables] sees its OWN keys: iteration, membership and length of a section proxy go through
     #     options()/has_option() (A5), which are restricted to the section's own dictionary
-    out.append(S('C15', F_CP, '_RawConfigParser.options', 'own-keys-only',
-                 ['if section == self.default_section:\n return list(self._defaults.keys())', 'return list(self._sections[section].keys())\n except KeyError:'], forbidden=['opts.update(self._defaults)']))
-    out.append(S('C15', F_CP, '_RawConfigParser.has_option', 'own-keys-only', ['option = self.optionxform(option)', 'return option in self._sections[section]']))
+    # has_option() and options() are under Engine A contracts (contracts/rawparser.py): exactly the section's own keys, [Variables] aside
     # (2) a variable never stands in for an option the section does not define; ${NAME} is the variable
     out.append(S('C15', F_CP, '_RawConfigParser.get', 'value-from-the-section-itself',
                  ['sectiondict = self._sections[section]', "if not option in sectiondict:\n if 'fallback' in kwargs:\n return kwargs['fallback']\n raise configparser.NoOptionError(option, section)", 'value = sectiondict[option]']))
@@ -61,12 +60,18 @@ def lemmas():
     out.append(o)
     return out
 
+MUTANTS = [
+    (F_CP, '_RawConfigParser.has_option', "return option in self._sections[section]", "return option in self._sections[section] or option in self._defaults", 'post'),
+    (F_CP, '_RawConfigParser.has_option', "elif section not in self._sections:", "elif section in self._sections:", 'post'),
+    (F_CP, '_RawConfigParser.options', "return list(self._sections[section].keys())", "return list(self._defaults.keys())", 'post'),
+    (F_CP, '_RawConfigParser.options', "except KeyError:", "except ValueError:", 'raises'),
+]
 MODULE_MUTANTS = [
-    (F_CP, "      return list(self._sections[section].keys())\n    except KeyError:", "      return list(self._sections[section].keys()) + list(self._defaults.keys())\n    except KeyError:", 'own-keys-only'),
+    (F_CP, "      return list(self._sections[section].keys())\n    except KeyError:", "      return list(self._sections[section].keys()) + list(self._defaults.keys())\n    except KeyError:", '_RawConfigParser.options'),
     (F_CP, "    lookup = collections.ChainMap(self._defaults, sectiondict)\n", "    lookup = collections.ChainMap(sectiondict, self._defaults)\n", 'placeholders-resolve'),
     (F_CP, "    if not option in sectiondict:\n      if 'fallback' in kwargs:\n        return kwargs['fallback']\n      raise configparser.NoOptionError(option, section)\n", "    if not option in sectiondict:\n      return super(_RawConfigParser, self).get(section, option, **kwargs)\n", 'value-from-the-section-itself'),
 ]
-ENGINE_B_FUNCTIONS = [(F_CP, '_RawConfigParser.options'), (F_CP, '_RawConfigParser.has_option'), (F_CP, '_RawConfigParser.get'), (F_CP, '_RawConfigParser.__init__')]
+ENGINE_B_FUNCTIONS = [(F_CP, '_RawConfigParser.get'), (F_CP, '_RawConfigParser.__init__')]
 ASSUMPTIONS = ['A5: SectionProxy iteration/len use parser.options(section); `k in proxy` uses parser.has_option; proxy[k] and proxy.get(k) use parser.get(section, k); ExtendedInterpolation.before_get(parser, section, option, value, map) substitutes ${NAME} from map and ${S:K} through parser.get(S, K)',
                'textual substitution: interpolation happens on get(), i.e. before any parsing of the value']
 BOUNDED = [dict(name='templated file tabulates to the same bytes as the hand-substituted file; unused variables change nothing, also when their names are option names of other sections', bound='seeded pair/EAM/FS models, 0..70% of the numeric literals lifted into [Variables], variable names drawn from option names; quick 40 / thorough 2000', technique='concrete oracle')]
